@@ -26,6 +26,11 @@ CLASSES = ('bls-signature-size-not-budgeted', 'fill-prices-only-first-content-of
 SIMS = [(0, 0, False, 0), (1, 0, False, 0), (100000, 0, False, 0), (1000999, 300, True, 0), (1040000000, 59643, True, 0), (168000, 0, True, 0),
         (12345678, 16384, False, 0), (2000000, 0, False, 1), (100000, 77, True, 2)]
 INT_MILLIGAS = 1500500
+SWEEP_BASE = 160700
+
+
+def sim_at(ix):
+    return SIMS[ix - 1] if ix < 1000 else ((SWEEP_BASE + ix - 1000) * 1000, 0, False, 0)
 
 
 BLS_SIGN_ATTEMPTS = 2
@@ -48,19 +53,21 @@ def families(quick):
                 fam('internal', 2, kinds=('transaction', 'transaction_kt', 'origination'), modes=('autofill',), sims=(8, 9, 3), uniform=False), fam('b3', 3, kinds=('transaction', 'reveal', 'origination'), sims=(2, 4, 5)),
                 fam('mixed-sims', 2, kinds=('transaction', 'origination'), keys=('tz1', 'tz4'), modes=('autofill',), sims=(1, 3, 5, 7), uniform=False),
                 fam('mixed-sizes', 3, kinds=('transaction', 'origination_big'), keys=('tz1', 'tz4'), sims=(2, 3)),
-                fam('other-hard-limits', 2, kinds=('transaction', 'transaction_kt', 'origination'), keys=('tz1',), sims=(3, 4), hard_gas=2080000, hard_storage=30000)]
+                fam('other-hard-limits', 2, kinds=('transaction', 'transaction_kt', 'origination'), keys=('tz1',), sims=(3, 4), hard_gas=2080000, hard_storage=30000),
+                fam('fee-byte-boundary', 1, kinds=('transaction',), keys=('tz1',), modes=('autofill',), sims=tuple(range(1000, 2200, 3)))]
     return [fam('b3', 3, sims=(1, 2, 3, 4, 5, 6, 7), chains=(10, 16383)),
             fam('big', 1, kinds=('transaction',), modes=('autofill', 'fill'), sims=(1, 2, 3, 6), big=(17, 25, 33, 40, 47, 49, 64, 95)),
             fam('b4', 4, kinds=('transaction', 'reveal', 'origination'), sims=(1, 4, 5)),
             fam('internal', 3, kinds=('transaction', 'transaction_kt', 'origination'), modes=('autofill',), sims=(8, 9, 3, 4), uniform=False),
             fam('mixed-sims', 3, kinds=('transaction', 'transaction_kt', 'origination'), modes=('autofill',), sims=(1, 2, 3, 4, 5, 6, 7), uniform=False),
             fam('mixed-sizes', 4, kinds=('transaction', 'reveal', 'origination_big'), sims=(2, 3, 4)),
-            fam('other-hard-limits', 2, sims=(3, 4, 5), hard_gas=2080000, hard_storage=30000), fam('small-hard-limits', 2, sims=(3, 4), hard_gas=520000, hard_storage=70000)]
+            fam('other-hard-limits', 2, sims=(3, 4, 5), hard_gas=2080000, hard_storage=30000), fam('small-hard-limits', 2, sims=(3, 4), hard_gas=520000, hard_storage=70000),
+            fam('fee-byte-boundary', 1, kinds=('transaction', 'transaction_kt'), keys=('tz1', 'tz4'), modes=('autofill',), sims=tuple(range(1000, 3000)))]
     # other-hard-limits / small-hard-limits: a node serving other constants than mainnet's 1040000 / 60000 (before the fee repair fill() priced the gas of
     # fees.DEFAULT_CONSTANTS while taking the limit from the node; the repaired code prices the limit it sets, so these families hold now).
 
 
-def observe(kinds, key_kind, mode, sim_ix, chain, hard_gas, hard_storage):
+def observe(kinds, key_kind, mode, sim_ix, chain, hard_gas, hard_storage, via_bulk=False):
     """Real fill()/autofill() against FakeNode -> dict(fees, gases, storages, counters, forged, size, signed)."""
     from ..fakenode import DecodeError, decode_manager_group
     from ..opclient import add_content, make_client, make_key
@@ -68,12 +75,18 @@ def observe(kinds, key_kind, mode, sim_ix, chain, hard_gas, hard_storage):
     client, node = make_client(key, chain_ctr=chain, constants={'hard_gas_limit_per_operation': str(hard_gas),
                                                                'hard_storage_limit_per_operation': str(hard_storage)})
     g = client
-    for j, kind in enumerate(kinds):
-        g = add_content(g, kind, j)
+    if via_bulk:
+        # every content has been a group of its own and was autofilled (a cost preview) before the groups are batched: the batch is
+        # a new, unfilled group and is priced from scratch
+        parts = [add_content(client, kind, j).autofill() for j, kind in enumerate(kinds)]
+        g = client.bulk(*parts)
+    else:
+        for j, kind in enumerate(kinds):
+            g = add_content(g, kind, j)
     if mode == 'autofill':
         spec = []
         for j, kind in enumerate(kinds):
-            mg, pdiff, alloc, nint = SIMS[(sim_ix[0] if j == 0 else sim_ix[1]) - 1]
+            mg, pdiff, alloc, nint = sim_at(sim_ix[0] if j == 0 else sim_ix[1])
             spec.append({'consumed_milligas': mg, 'paid_storage_size_diff': pdiff, 'internal': [INT_MILLIGAS] * nint,
                          'originated' if kind.startswith('origination') else 'allocated_destination_contract': alloc})
         node.sim_script.append(spec)
@@ -140,6 +153,10 @@ def replay_state(ctx, st, f):
             'hard_gas': f['hard_gas'], 'hard_storage': f['hard_storage'], 'model': to_json(st['out'])}
     obs = observe(case['kinds'], case['key'], case['mode'], case['sim'], case['chain'], f['hard_gas'], f['hard_storage'])
     judge(ctx, st, obs, case)
+    if case['mode'] == 'fill' and case['key'] == 'tz1' and len(case['kinds']) <= 2 and 'reveal' not in case['kinds'] and 'delegation' not in case['kinds']:
+        obs2 = observe(case['kinds'], case['key'], case['mode'], case['sim'], case['chain'], f['hard_gas'], f['hard_storage'], via_bulk=True)
+        ctx.count(('bulk',) + tuple(case['kinds']) + (f['hard_gas'],), nontrivial=True)
+        judge(ctx, st, obs2, dict(case, via_bulk=True))
     return obs
 
 
